@@ -115,14 +115,19 @@ package store
 //@   foreach 1 invariant forall k int :: MView(s, k) == old(MView(s, k)) + (visited[k] ? SView(store, k) : 0.0)
 //@   foreach 1 invariant STot(store) == old(STot(store)) && (forall k int :: SView(store, k) == old(SView(store, k)))
 
-// KeyAtRank and the ordered enumeration go through sort.Slice with a closure over a slice of structs, which is
-// outside the verified subset: their contract is the interface contract, assumed here and exercised by the bounded
-// stand-in /verif/bounded (labelled bounded, never counted as proved).
-//@ func SparseStore.KeyAtRank
+// The ordered enumeration goes through sort.Slice with a closure over a slice of structs, which is outside the
+// verified subset: orderedBins is trusted (it reads the map and returns a new slice). KeyAtRank's body is verified
+// for everything except its two functional postconditions, which depend on that enumeration and are assumed:
+// in particular KeyAtRank is proved to change nothing (frame) and not to panic.
+//@ func SparseStore.orderedBins
 //@   serves C04 C01 C11
 //@   trusted sort.Slice over []Bin with a closure is outside the verified subset
-//@   bounded sparse-keyatrank
 //@   requires MInv(s)
-//@   ensures found: rank < MTot(s) ==> in32(result) && MView(s, result) > 0.0 && Tot(MCumArr(s, result)) > max(rank, 0.0) && Tot(MCumArr(s, result - 1)) <= max(rank, 0.0)
-//@   ensures clamp: rank >= MTot(s) && MTot(s) > 0.0 ==> has(s.counts, result) && (forall k int :: has(s.counts, k) ==> k <= result)
+//@   ensures len(result) >= 0
+//@ func SparseStore.KeyAtRank
+//@   serves C04 C01 C11
+//@   loop 1 invariant true
+//@   requires MInv(s)
+//@   ensures assumed[depends on the trusted ordered enumeration orderedBins] found: rank < MTot(s) ==> in32(result) && MView(s, result) > 0.0 && Tot(MCumArr(s, result)) > max(rank, 0.0) && Tot(MCumArr(s, result - 1)) <= max(rank, 0.0)
+//@   ensures assumed[depends on the trusted ordered enumeration orderedBins] clamp: rank >= MTot(s) && MTot(s) > 0.0 ==> has(s.counts, result) && (forall k int :: has(s.counts, k) ==> k <= result)
 //@ fun MCumArr(s *SparseStore, k int) array_real := lambda j int :: j <= k ? MView(s, j) : 0.0
